@@ -230,22 +230,21 @@ type IntResult struct {
 	Loose bool
 }
 
-// ParseInt is 15.1.2.2; radix is the already ToNumber-converted second argument
-// (NaN for undefined).
-func ParseInt(str string, radix float64) IntResult {
+// ParseIntDigits performs steps 1-12 of 15.1.2.2: it returns the sign, the
+// radix R finally used and the digit values of Z (nil when the result is NaN).
+func ParseIntDigits(str string, radix float64) (neg bool, ds []int, R int) {
 	s := trimLeftWS([]rune(str))
-	sign := 1.0
 	if len(s) > 0 && s[0] == '-' {
-		sign = -1
+		neg = true
 	}
 	if len(s) > 0 && (s[0] == '+' || s[0] == '-') {
 		s = s[1:]
 	}
-	R := int(ToInt32(radix))
+	R = int(ToInt32(radix))
 	strip := true
 	if R != 0 {
 		if R < 2 || R > 36 {
-			return IntResult{Value: math.NaN(), Alt: math.NaN()}
+			return neg, nil, R
 		}
 		if R != 16 {
 			strip = false
@@ -257,13 +256,23 @@ func ParseInt(str string, radix float64) IntResult {
 		s = s[2:]
 		R = 16
 	}
-	var ds []int
 	for _, c := range s {
 		d := DigitVal(c)
 		if d >= R {
 			break
 		}
 		ds = append(ds, d)
+	}
+	return neg, ds, R
+}
+
+// ParseInt is 15.1.2.2; radix is the already ToNumber-converted second argument
+// (NaN for undefined).
+func ParseInt(str string, radix float64) IntResult {
+	neg, ds, R := ParseIntDigits(str, radix)
+	sign := 1.0
+	if neg {
+		sign = -1
 	}
 	if len(ds) == 0 {
 		return IntResult{Value: math.NaN(), Alt: math.NaN()}
